@@ -210,6 +210,112 @@ async fn cookie_case(server: SocketAddr, spec_secret: &str, expiry: u64, age: i6
 }
 
 
+/// The secret file holds bytes, not necessarily text (`openssl rand 32 > auth_secret`, a Kubernetes
+/// secret made from binary data). Either the application refuses to start with such a file, or the
+/// file's bytes are the key: a cookie under exactly those bytes is accepted, and a cookie made by a
+/// router whose secret file holds OTHER bytes is refused. (A text layer that replaces what it cannot
+/// decode makes many files the same key.)
+async fn binary_secret_file_family(report: &mut Report) {
+    // two files, both 32 bytes, no byte of either is valid UTF-8 on its own
+    let file_a: Vec<u8> = (0x80u8..0xa0).collect();
+    let file_b: Vec<u8> = (0xa0u8..0xc0).rev().collect();
+    // a file that is text except for one stray byte
+    let mut file_c = b"operator secret with one stray byte ".to_vec();
+    file_c.push(0xff);
+    let mut file_c_twin = b"operator secret with one stray byte ".to_vec();
+    file_c_twin.push(0xfe);
+    for (name, file, twin) in [("all-bytes-above-0x7f", file_a, file_b), ("text-with-one-stray-byte", file_c, file_c_twin)] {
+        let class = format!("binary-secret-file/{name}");
+        let port = tcp::free_port();
+        let addr: SocketAddr = format!("127.0.0.1:{port}").parse().expect("addr");
+        let dir = std::path::PathBuf::from(std::env::var("VERIF_ROOT").unwrap_or_else(|_| "/verif".into())).join(".run").join(format!("c14b-{}-{port}", std::process::id()));
+        if let Err(e) = std::fs::create_dir_all(&dir) {
+            report.inconclusive(&format!("{class}: {e}"));
+            continue;
+        }
+        let yaml = format!("address: \"{addr}\"\ntimeout: 3\nmax_packet_length: 1000\nauth_cookie_expiry: 60\nadapters:\n  discovery:\n    fixed:\n      targets:\n      - identifier: \"only\"\n        address: \"10.9.8.7:25565\"\n  authentication:\n    fixed:\n      profile:\n        id: \"00000000-0000-0000-0000-00000000004d\"\n        name: \"FixedUser\"\n");
+        let (cfg_path, secret_path) = (dir.join("config.yaml"), dir.join("auth_secret"));
+        let written = std::fs::write(&cfg_path, yaml).and_then(|_| std::fs::write(&secret_path, &file));
+        let read = {
+            let _g = ENV_LOCK.lock().unwrap_or_else(|e| e.into_inner());
+            // SAFETY: the variables are only read by Config::read() below, under the same lock
+            unsafe {
+                std::env::set_var("CONFIG_FILE", &cfg_path);
+                std::env::set_var("AUTH_SECRET_FILE", &secret_path);
+            }
+            let r = Config::read();
+            unsafe {
+                std::env::remove_var("CONFIG_FILE");
+                std::env::remove_var("AUTH_SECRET_FILE");
+            }
+            r
+        };
+        let _ = std::fs::remove_dir_all(&dir);
+        if let Err(e) = written {
+            report.inconclusive(&format!("{class}: {e}"));
+            continue;
+        }
+        report.eval(Some(&class));
+        let config = match read {
+            Err(e) => {
+                report.count("secret files that are not text refused when the configuration is read", 1);
+                report.sample(json!({"case": class, "observed": {"config_read_error": e.to_string()}}));
+                continue;
+            }
+            Ok(c) => c,
+        };
+        report.count("secret files that are not text taken by the configuration", 1);
+        std::thread::spawn(move || {
+            let rt = tokio::runtime::Builder::new_multi_thread().worker_threads(2).enable_all().build().expect("runtime");
+            let _ = rt.block_on(passage::start(config));
+        });
+        tcp::wait_listening(addr, Duration::from_secs(10)).await;
+        // the key a router started with the twin file ends up with, if the bytes it cannot decode are replaced
+        let twin_key = String::from_utf8_lossy(&twin).into_owned().into_bytes();
+        let mut flags = vec![];
+        for (k, key) in [&file, &twin, &twin_key].into_iter().enumerate() {
+            let Ok(end) = TcpEnd::connect(addr, None).await else {
+                report.inconclusive(&format!("{class}: connect failed"));
+                break;
+            };
+            let now = std::time::SystemTime::now().duration_since(std::time::UNIX_EPOCH).map(|d| d.as_secs()).unwrap_or(0);
+            let body = serde_json::to_vec(&json!({
+                "timestamp": now, "client_addr": format!("127.0.0.1:{}", end.local.port().wrapping_add(1).max(1)),
+                "user_name": "cookie_binary", "user_id": scripts::uuid_string(0xb1a_u128 + k as u128), "target": null, "profile_properties": [], "extra": {},
+            }))
+            .expect("json");
+            let mut plan = scripts::plan(
+                vec![
+                    scripts::send("Handshake", scripts::handshake(3, "limits.example.org", 25565, 770)),
+                    scripts::send("LoginStart", Pkt::LoginStart { name: "Claimed".into(), uuid: 5 }),
+                    Act::AwaitPkt { name: "EncryptionRequest", nth: 1 },
+                    Act::Close,
+                    Act::AwaitClose,
+                ],
+                false,
+                [7u8; 16],
+                Duration::from_secs(6),
+            );
+            plan.cookies = vec![(AUTH_KEY.to_string(), Some(sign_cookie(key, &body)))];
+            let log = Client::new(&end, plan).run().await;
+            end.kill();
+            flags.push(log.enc_request.as_ref().map(|e| e.2));
+            report.count("should-authenticate flags read", 1);
+        }
+        if flags.len() < 3 {
+            continue;
+        }
+        let observed = json!({"secret_file_hex": vp_common::report::hex(&file), "other_secret_file_hex": vp_common::report::hex(&twin), "should_authenticate": {"cookie_under_the_files_bytes": flags[0], "cookie_under_the_other_files_bytes": flags[1], "cookie_of_a_router_configured_with_the_other_file": flags[2]}});
+        report.sample(json!({"case": class, "observed": observed}));
+        if flags[0] != Some(false) {
+            report.violation("binary-secret-file/cookie-under-the-configured-bytes-refused", "a fresh cookie signed with exactly the bytes of the configured secret file was refused: the router's key is not the configured secret", json!({"case": class, "observed": observed}));
+        }
+        if flags[1] == Some(false) || flags[2] == Some(false) {
+            report.violation("binary-secret-file/cookie-under-another-secret-accepted", "a cookie made with the secret of a router whose secret file holds other bytes was accepted: more than the configured secret validates cookies", json!({"case": class, "observed": observed}));
+        }
+    }
+}
+
 /// A cookie the server issued itself (full login through the configured listener) presented again
 /// after `wait`: it must be accepted within the configured expiry and refused beyond it.
 async fn issued_cookie_case(server: SocketAddr, expiry: u64, wait: Duration, seed: u64) -> Outcome {
@@ -502,6 +608,9 @@ pub async fn run(cli: &Cli, report: &mut Report) {
         }
     }
     report.set("worst_scheduler_lateness_ms", json!(worst.as_millis() as u64));
+    if cli.prop == "C14" {
+        binary_secret_file_family(report).await;
+    }
 }
 
 pub async fn run_prop(cli: &Cli) -> i32 {
